@@ -1355,8 +1355,6 @@ func UnmarshalLsAttribute(a *api.LsAttribute) (*bgp.LsAttribute, error) {
 					LocalAddress:  a.Prefix.IgpFlags.LocalAddress,
 					PropagateNSSA: a.Prefix.IgpFlags.PropagateNssa,
 				},
-				Opaque:           &a.Prefix.Opaque,
-				SrPrefixSID:      &a.Prefix.SrPrefixSid,
 				SrPrefixSIDs:     prefixSIDs,
 				FadPrefixMetrics: fapms,
 			}
@@ -1366,6 +1364,14 @@ func UnmarshalLsAttribute(a *api.LsAttribute) (*bgp.LsAttribute, error) {
 				SrPrefixSIDs:     prefixSIDs,
 				FadPrefixMetrics: fapms,
 			}
+		}
+		// The opaque attribute and the Prefix-SID are optional TLVs of their
+		// own: present without IGP flags, and not implied by IGP flags.
+		if len(a.Prefix.Opaque) > 0 {
+			lsAttr.Prefix.Opaque = &a.Prefix.Opaque
+		}
+		if a.Prefix.SrPrefixSid != 0 {
+			lsAttr.Prefix.SrPrefixSID = &a.Prefix.SrPrefixSid
 		}
 	}
 
